@@ -75,6 +75,8 @@ def correspond(ctx, corr, model_ok):
     from harness.props import c01
     corr.oracle_failures.extend(c01.reconnect_oracle())
     corr.count('reconnect with a partly reassembled frame, id used again', 4)
+    corr.oracle_failures.extend(lease_reconnect_oracle())
+    corr.count('requests waiting for a lease when the connection is replaced', 9)
     if model_ok:
         E.trace_corr(corr, runs, KEEP, KEYS, 'C10 table/cache key sets vs model/Endpoint.v')
     corr.rule = ('legal random histories of 4..20 actions; key sets of the stream table and the reassembly cache compared '
@@ -94,6 +96,7 @@ def search(ctx, budget):
         found.extend(partial_cancel_oracle())
         from harness.props import c01
         found.extend(c01.reconnect_oracle())
+        found.extend(lease_reconnect_oracle())
     return found
 
 
@@ -106,6 +109,8 @@ def replay(obj):
     if 'reconnect_case' in case:
         from harness.props import c01
         return bool(c01.reconnect_oracle())
+    if 'lease_reconnect_case' in case:
+        return bool(lease_reconnect_oracle())
     if 'partial_case' in case:
         r = run_partial_request_cancel(*case['partial_case'])
         return bool(any(r['open'].values()) or any(r['partial'].values()) or r['escaped'])
@@ -210,4 +215,95 @@ def partial_cancel_oracle(ctx=None):
                     if any(r['open'].values()) or any(r['partial'].values()) or r['escaped']:
                         out.append({'what': 'state-retained-after-cancel-of-partly-written-request',
                                     'partial_case': [kind, requester, permits, lenreq, n], 'detail': repr(r)[:400]})
+    return out
+
+
+# ---------------------------------------------------------------------------------------------
+# requests waiting for a lease when the connection is replaced: their interaction ended with the old connection, nothing of it
+# may surface on the new one (a request frame of a dead interaction would open a stream nobody owns and collide with the id
+# the next request gets)
+
+def run_lease_reconnect(cause, kinds):
+    import asyncio
+    from datetime import timedelta
+    from harness import sim, frames as FR
+    from rsocket.rsocket_client import RSocketClient
+    from rsocket.request_handler import BaseRequestHandler
+    from rsocket.payload import Payload
+    from reactivestreams.subscriber import DefaultSubscriber
+    loop = sim.new_loop()
+    sim.patch_clock(loop)
+    T = sim.make_transport_class()
+    ts = [T(lenreq=True, name='a'), T(lenreq=True, name='b')]
+
+    async def provider():
+        for x in ts:
+            yield x
+
+    class H(BaseRequestHandler):
+        async def on_close(self, rsocket, exception=None):
+            if cause != 'explicit':
+                await rsocket.reconnect()
+    box = {}
+    futs = []
+    try:
+        def mk():
+            box['c'] = RSocketClient(provider(), handler_factory=H, honor_lease=True, keep_alive_period=timedelta(seconds=1000),
+                                     max_lifetime_period=timedelta(seconds=5000))
+            asyncio.create_task(box['c'].connect())
+        loop.run(mk)
+        loop.settle()
+        c = box['c']
+
+        def issue(tag):
+            for k in kinds:
+                if k == 'rr':
+                    futs.append(c.request_response(Payload(tag + b'-rr')))
+                elif k == 'rs':
+                    c.request_stream(Payload(tag + b'-rs')).subscribe(DefaultSubscriber())
+                elif k == 'fnf':
+                    c.fire_and_forget(Payload(tag + b'-fnf'))
+                else:
+                    c.request_channel(Payload(tag + b'-rc')).subscribe(DefaultSubscriber())
+        loop.run(lambda: issue(b'old'))            # no lease yet: all of these wait
+        loop.settle()
+        if cause == 'eof':
+            ts[0].inject_eof()
+        elif cause == 'error':
+            ts[0].inject_error()
+        else:
+            loop.run(lambda: asyncio.create_task(c.reconnect()))
+        loop.settle()
+        ts[1].inject_frame(FR.build({'t': 'Lease', 'sid': 0, 'ign': False, 'ttl': 60000, 'n': 50, 'md': b''}).serialize())
+        loop.settle()
+        loop.run(lambda: issue(b'new'))
+        loop.settle()
+        new = [sim.parse_sent(b) for b in ts[1].sent]
+        return {'new': new, 'reconnected': ts[1].connected, 'old_wire': [sim.parse_sent(b) for b in ts[0].sent]}
+    finally:
+        loop.finish()
+
+
+def lease_reconnect_oracle():
+    out = []
+    for cause in ('eof', 'error', 'explicit'):
+        for kinds in (('rr',), ('rs', 'rr'), ('fnf', 'rc', 'rr')):
+            r = run_lease_reconnect(cause, kinds)
+            reqs = [f for f in r['new'] if f['t'] in ('RequestResponse', 'RequestStream', 'RequestChannel', 'RequestFnf')]
+            bad = []
+            if not r['reconnected']:
+                bad.append('did not reconnect')
+            stale = [f for f in reqs if bytes(f.get('d') or b'').startswith(b'old')]
+            if stale:
+                bad.append('request frames of interactions that ended with the old connection were sent on the new one: %s' %
+                           [(f['t'], f['sid']) for f in stale])
+            ids = [f['sid'] for f in reqs]
+            if len(ids) != len(set(ids)):
+                bad.append('one stream id opened twice on the new connection: %s' % ids)
+            if len([f for f in reqs if bytes(f.get('d') or b'').startswith(b'new')]) != len(kinds):
+                bad.append('%d of the %d requests issued after the reconnect were sent' %
+                           (len([f for f in reqs if bytes(f.get('d') or b'').startswith(b'new')]), len(kinds)))
+            if bad:
+                out.append({'what': 'client honouring leases, requests waiting for a lease at a reconnect (%s): %s' % (cause, '; '.join(bad)),
+                            'lease_reconnect_case': [cause, list(kinds)]})
     return out
